@@ -190,5 +190,275 @@ theorem deliverOne_refines_strong {w w' : World} {it : QItem} (hw : WInvMid w) (
           · rw [if_neg (fun hh => hc hh.2), read_eq_getCell hwf_we]; exact g2 c hc
         · rw [if_neg (fun hh => het hh.1), read_eq_getCell hwf_we]; exact (g4 e het).1 c
 
+/-- the conclusion of `deliverOne_refines_strong`, as a relation between the world a delivery starts in, the world it
+    ends in and the event -/
+def Refines (w w' : World) (it : QItem) : Prop :=
+    ∃ info, w.evInfo it = some info ∧
+      ((it.ty.targeted = true ∧ w.entities.get it.target = none ∧ w'.entities = w.entities ∧ w'.archs = w.archs) ∨
+       ∃ (wh : World) (owned : Bool), PayloadsOnly w wh ∧ (NoBump w → ∀ e c, wh.read e c = w.read e c) ∧ WInvMid wh ∧
+         (it.ty.targeted = true → ∃ loc, wh.entities.get it.target = some loc) ∧
+         if owned then w'.entities = wh.entities ∧ w'.archs = wh.archs
+         else ∀ e, ((∃ l, wh.entities.get e = some l) ∨ (e = it.target ∧ it.ty.targeted = true) ∨
+                    (info.kind ≠ EvKind.spawn ∧ info.kind ≠ EvKind.despawn)) →
+                ∀ c, w'.read e c = applySpec info.kind it.target it.pay.cell wh.read e c)
+
+theorem deliverOne_Refines {w w' : World} {it : QItem} (hw : WInvMid w) (hs' : Small w')
+    (h : (deliverOne it).run.run w = (.ok (), w')) : Refines w w' it :=
+  deliverOne_refines_strong hw hs' h
+
+/-- **(1) `deliverOne_refines_reach` with no hypothesis but `Reach`, `Small`** and the normal return -/
+theorem deliverOne_refines_reach' {w w' : World} {it : QItem} (hr : Reach w) (hs : Small w) (hs' : Small w')
+    (h : (deliverOne it).run.run w = (.ok (), w')) : Refines w w' it :=
+  deliverOne_Refines ⟨ReachStore.winv hr hs, [], (ReachStore.quiescent hr hs).2⟩ hs' h
+
+/-! ## (D) a whole depth-first propagation -/
+
+/-- what a log entry says about the store: the delivery, run on an empty segment from `d.pre`, refines the abstract map
+    update and ends in `d.post` -/
+def DeliveryRel (d : Delivery) : Prop := Refines { d.pre with queue := [] } d.post d.ev
+
+/-- the entries of a log follow one another: each starts in the world the previous one ended in -/
+def Chain : World → List Delivery → World → Prop
+  | w, [], w' => w' = w
+  | w, d :: l, w' => d.pre = w ∧ Chain d.post l w'
+
+theorem Chain.append {w w1 w2 : World} {l1 l2 : List Delivery} (h1 : Chain w l1 w1) (h2 : Chain w1 l2 w2) :
+    Chain w (l1 ++ l2) w2 := by
+  induction l1 generalizing w with
+  | nil => cases h1; exact h2
+  | cons d l ih => exact ⟨h1.1, ih h1.2⟩
+
+theorem small_of_step {w it w1 seg} (h : Step deliverOne w it w1 seg) (hs : Small w1) : Small w := by
+  obtain ⟨w'', hd, -, rfl⟩ := h
+  have : Small { w with queue := [] } := SlabMono.small (fun n => deliverOne_sl it) hd hs
+  exact this
+
+theorem dfsLog_small {w es w' log} (h : DfsLog deliverOne w es w' log) (hs : Small w') : Small w := by
+  induction h with
+  | nil w => exact hs
+  | cons hst _ _ ih1 ih2 => exact small_of_step hst (ih1 (ih2 hs))
+
+/-- **(D) every delivery of a completed propagation refines the abstract map update**: started in a world satisfying
+    the mid-flush invariant, a completed depth-first propagation (`DfsLog`, what a `flush` that returns normally is:
+    `flushWith_ok_log`) ends in such a world; its log is a chain from the start to the end world; every entry starts in a
+    world satisfying `WInvMid` and satisfies `DeliveryRel`. -/
+theorem dfsLog_refines {w es w' log} (h : DfsLog deliverOne w es w' log) (hw : WInvMid w) (hs : Small w') :
+    WInvMid w' ∧ Chain w log w' ∧ ∀ d ∈ log, WInvMid d.pre ∧ DeliveryRel d := by
+  induction h with
+  | nil w => exact ⟨hw, rfl, fun d hd => nomatch hd⟩
+  | @cons w e w1 seg w2 es w3 l1 l2 hst h1 h2 ih1 ih2 =>
+    have hs2 : Small w2 := dfsLog_small h2 hs
+    have hs1 : Small w1 := dfsLog_small h1 hs2
+    obtain ⟨w'', hd, rfl, rfl⟩ := hst
+    have hmid0 : WInvMid { w with queue := [] } := hw.frame (by releq) rfl rfl
+    have hs'' : Small w'' := hs1
+    have hmid'' : WInvMid w'' := KeepsG.run_ok (Pieces.glue_deliverOne pieces e) hmid0 hd hs''
+    have hmid1 : WInvMid { w'' with queue := [] } := hmid''.frame (by releq) rfl rfl
+    obtain ⟨m2, c1, r1⟩ := ih1 hmid1 hs2
+    obtain ⟨m3, c2, r2⟩ := ih2 m2 hs
+    have hrel0 : Refines { w with queue := [] } w'' e := deliverOne_Refines hmid0 hs'' hd
+    have hrel : DeliveryRel ⟨w, e, { w'' with queue := [] }, w''.queue⟩ := hrel0
+    refine ⟨m3, ⟨rfl, c1.append c2⟩, fun d hd' => ?_⟩
+    simp only [List.cons_append, List.mem_cons, List.mem_append] at hd'
+    rcases hd' with rfl | hd' | hd'
+    · exact ⟨hw, hrel⟩
+    · exact r1 d hd'
+    · exact r2 d hd'
+
+/-- **(D) `flush`**: a flush that returns normally from a world satisfying `WInvMid` is a chain of deliveries each of
+    which refines the abstract map update; the end world differs from the last world of the chain in the arena epoch
+    only (so it reads the same). -/
+theorem flush_refines {fuel : Nat} {w w' : World} (hw : WInvMid w) (hs : Small w')
+    (h : (flush fuel).run.run w = (.ok (), w')) :
+    ∃ wd log, DfsLog deliverOne { w with queue := [] } w.queue.reverse wd log ∧
+      w' = { wd with arenaEpoch := wd.arenaEpoch + 1 } ∧ WInvMid wd ∧
+      Chain { w with queue := [] } log wd ∧ ∀ d ∈ log, WInvMid d.pre ∧ DeliveryRel d := by
+  obtain ⟨wd, log, hd, rfl⟩ := flushWith_ok_log (w0 := w) (q := w.queue) h
+  obtain ⟨a, b, c⟩ := dfsLog_refines hd (hw.frame (by releq) rfl rfl) hs
+  exact ⟨wd, log, hd, rfl, a, b, c⟩
+
+/-- the delivery can change `(e, c)` through its built-in effect: it targets `e` and its registry entry is
+    `Insert c`, `Remove c` or `Despawn` -/
+def Touches (d : Delivery) (e : Key) (c : Nat) : Prop :=
+  d.ev.target = e ∧ ∃ info, ({ d.pre with queue := [] } : World).evInfo d.ev = some info ∧
+    (info.kind = EvKind.insert c ∨ info.kind = EvKind.remove c ∨ info.kind = EvKind.despawn)
+
+theorem read_some_alive {w : World} {e : Key} {c : Nat} {x : Cell} (h : w.read e c = some x) :
+    ∃ l, w.entities.get e = some l := by
+  unfold World.read at h
+  split at h
+  · cases h
+  · exact ⟨_, ‹_›⟩
+
+/-- one delivery that does not touch `(e, c)`: the value stays, with the same serial; the same cell if no handler
+    bumps -/
+theorem delivery_unaffected {d : Delivery} (hr : DeliveryRel d) {e : Key} {c : Nat} (hnt : ¬ Touches d e c) {x : Cell}
+    (hx : d.pre.read e c = some x) :
+    ∃ y, d.post.read e c = some y ∧ y.ser = x.ser ∧ (NoBump d.pre → y = x) := by
+  obtain ⟨info, hinfo, hcase⟩ := hr
+  have hx0 : ({ d.pre with queue := [] } : World).read e c = some x := hx
+  rcases hcase with ⟨-, -, he, ha⟩ | ⟨wh, owned, hpo, hnb, -, -, hrest⟩
+  · exact ⟨x, by rw [read_congr he ha]; exact hx0, rfl, fun _ => rfl⟩
+  · obtain ⟨y, hy, hser⟩ := hpo.2.2.2 e c x hx0
+    have hyx : NoBump d.pre → y = x := fun h => by
+      have := hnb h e c
+      rw [hy, hx0] at this
+      exact Option.some.inj this
+    cases owned with
+    | true =>
+      simp only [if_true] at hrest
+      exact ⟨y, by rw [read_congr hrest.1 hrest.2]; exact hy, hser, hyx⟩
+    | false =>
+      simp only [Bool.false_eq_true, if_false] at hrest
+      have := hrest e (.inl (read_some_alive hy)) c
+      refine ⟨y, ?_, hser, hyx⟩
+      rw [this]
+      cases hk : info.kind with
+      | insert ci =>
+        simp only [applySpec]
+        rw [if_neg]; exact hy
+        rintro ⟨rfl, rfl⟩
+        exact hnt ⟨rfl, info, hinfo, .inl hk⟩
+      | remove ci =>
+        simp only [applySpec]
+        rw [if_neg]; exact hy
+        rintro ⟨rfl, rfl⟩
+        exact hnt ⟨rfl, info, hinfo, .inr (.inl hk)⟩
+      | despawn =>
+        simp only [applySpec]
+        rw [if_neg]; exact hy
+        rintro rfl
+        exact hnt ⟨rfl, info, hinfo, .inr (.inr hk)⟩
+      | spawn => simp only [applySpec]; exact hy
+      | normal => simp only [applySpec]; exact hy
+
+/-- **(D) `last_value`, serial form**: along a chain of deliveries none of which touches `(e, c)`, the value of
+    `(e, c)` is the same stored value at the end (same ledger serial — only `&mut` access of handlers may have changed
+    its payload), and literally the same cell when no handler of any of the worlds bumps -/
+theorem unaffected_serial {w w' : World} {log : List Delivery} (hc : Chain w log w')
+    (hr : ∀ d ∈ log, DeliveryRel d) {e : Key} {c : Nat} (hnt : ∀ d ∈ log, ¬ Touches d e c) {x : Cell}
+    (hx : w.read e c = some x) :
+    ∃ y, w'.read e c = some y ∧ y.ser = x.ser ∧ ((∀ d ∈ log, NoBump d.pre) → y = x) := by
+  induction log generalizing w x with
+  | nil => cases hc; exact ⟨x, hx, rfl, fun _ => rfl⟩
+  | cons d l ih =>
+    obtain ⟨rfl, hc'⟩ := hc
+    obtain ⟨y, hy, hs, hb⟩ := delivery_unaffected (hr d (List.mem_cons_self ..)) (hnt d (List.mem_cons_self ..)) hx
+    obtain ⟨z, hz, hs', hb'⟩ := ih hc' (fun d' h' => hr d' (List.mem_cons_of_mem _ h'))
+      (fun d' h' => hnt d' (List.mem_cons_of_mem _ h')) hy
+    exact ⟨z, hz, hs'.trans hs, fun hall =>
+      (hb' fun d' h' => hall d' (List.mem_cons_of_mem _ h')).trans (hb (hall d (List.mem_cons_self ..)))⟩
+
+/-- **(D) `flush_last_insert`**: the log of a propagation splits as `l1 ++ d :: l2`; after `d` — an applied
+    `Insert(e, c, x)`, i.e. `d.post` reads `x` at `(e, c)` (`insert_applied`) — no delivery touches `(e, c)`.  Then the end
+    world reads at `(e, c)` the value `d` stored: same serial, and the same cell if no handler bumps. -/
+theorem flush_last_insert {w w' : World} {l1 l2 : List Delivery} {d : Delivery}
+    (hc : Chain w (l1 ++ d :: l2) w') (hr : ∀ d' ∈ l1 ++ d :: l2, DeliveryRel d') {e : Key} {c : Nat} {x : Cell}
+    (happ : d.post.read e c = some x) (hnt : ∀ d' ∈ l2, ¬ Touches d' e c) :
+    ∃ y, w'.read e c = some y ∧ y.ser = x.ser ∧ ((∀ d' ∈ l2, NoBump d'.pre) → y = x) := by
+  have hsplit : ∀ (l1 : List Delivery) (w : World), Chain w (l1 ++ d :: l2) w' → Chain d.post l2 w' := by
+    intro l1
+    induction l1 with
+    | nil => intro w h; exact h.2
+    | cons a l ih => intro w h; exact ih _ h.2
+  exact unaffected_serial (hsplit l1 w hc)
+    (fun d' h' => hr d' (List.mem_append_right _ (List.mem_cons_of_mem _ h'))) hnt happ
+
+/-- **an applied `Insert`**: a delivery of an event of kind `insert c` either stored its value at `(target, c)`, or its
+    target was dead, or a handler took it (and then entities and archetypes are as the handlers left them) -/
+theorem insert_applied {d : Delivery} (hr : DeliveryRel d) {info : EvInfo} {c : Nat}
+    (hinfo : ({ d.pre with queue := [] } : World).evInfo d.ev = some info) (hk : info.kind = EvKind.insert c) :
+    d.post.read d.ev.target c = some d.ev.pay.cell ∨ d.pre.entities.get d.ev.target = none ∨
+    ∃ wh, PayloadsOnly { d.pre with queue := [] } wh ∧ d.post.entities = wh.entities ∧ d.post.archs = wh.archs := by
+  obtain ⟨info', hinfo', hcase⟩ := hr
+  rw [hinfo] at hinfo'; cases hinfo'
+  rcases hcase with ⟨-, hdead, -, -⟩ | ⟨wh, owned, hpo, -, -, -, hrest⟩
+  · exact .inr (.inl hdead)
+  · cases owned with
+    | true => simp only [if_true] at hrest; exact .inr (.inr ⟨wh, hpo, hrest⟩)
+    | false =>
+      simp only [Bool.false_eq_true, if_false] at hrest
+      refine .inl ?_
+      rw [hrest d.ev.target (.inr (.inr ⟨(by rw [hk]; exact fun h => nomatch h), (by rw [hk]; exact fun h => nomatch h)⟩)) c]
+      simp [applySpec, hk]
+
+/-! ## (E) a kernel-evaluated history -/
+
+/-- `Receiver<G0>`, `Fetcher<&mut K0>`; body: bump every row -/
+def hBump : HSpec := { name := "bump", params := [.recv (.g 0) false none, .fetch (.mut 0)], body := [.bump 1] }
+/-- `Receiver<Insert<K0>, ()>`, `Sender<Insert<K1>>`; body: insert `K1 = 5` on the target -/
+def hReact : HSpec :=
+  { name := "react", params := [.recv (.ins 0) false none, .snd [.ins 1]], body := [.ins .self 1 5] }
+/-- `ReceiverMut<Insert<K2>, ()>`; body: take the event -/
+def hTake : HSpec := { name := "take", params := [.recv (.ins 2) true none], body := [.take] }
+
+/-- spawn `#0`, `#1`; the three handlers; `#0.K0 := 7` (the reaction inserts `K1 = 5`); `G0` (bump: `K0 = 8`);
+    `#0.K2 := 9` (taken: never stored); despawn `#1` -/
+def demoOps : List Op :=
+  [.spawn, .spawn, .addh hBump, .addh hReact, .addh hTake, .insert 0 0 7, .send 0, .insert 0 2 9, .despawn 1]
+
+def demoW : World := ReachStore.runOps demoOps
+
+/-- what the kernel observes -/
+def demoCheck : Bool :=
+  ReachStore.okOps demoOps
+  && (ReachStore.runOps (demoOps.take 6)).read ⟨0, 1⟩ 0 == some ⟨7, 1⟩
+  && (ReachStore.runOps (demoOps.take 6)).read ⟨0, 1⟩ 1 == some ⟨5, 2⟩
+  && demoW.read ⟨0, 1⟩ 0 == some ⟨8, 1⟩ && demoW.read ⟨0, 1⟩ 1 == some ⟨5, 2⟩ && demoW.read ⟨0, 1⟩ 2 == none
+  && (ReachStore.runOps (demoOps.take 8)).entities.get ⟨1, 1⟩ == some ⟨0, 0⟩ && demoW.entities.get ⟨1, 1⟩ == none
+  && demoW.nextCSerial == 4
+
+set_option maxRecDepth 1000000 in
+/-- **kernel-checked**: every operation returns normally; after the insert `#0` reads `K0 = 7` (serial 1) and the value
+    the reacting handler inserted, `K1 = 5` (serial 2); at the end `K0 = 8` WITH THE SAME SERIAL 1 (the bump: payload
+    only), `K1 = 5`, no `K2` although serial 3 was handed out for it (the `Insert` was taken), and `#1` is dead -/
+theorem demoCheck_true : demoCheck = true := by
+  delta demoCheck demoW ReachStore.runOps ReachStore.okOps demoOps
+  eval_world
+
+theorem demoOps_valid : ∀ op ∈ demoOps, op.Valid := by
+  intro op hm
+  simp only [demoOps, List.mem_cons, List.not_mem_nil, or_false] at hm
+  rcases hm with rfl | rfl | rfl | rfl | rfl | rfl | rfl | rfl | rfl <;> try trivial
+  all_goals
+    intro ps hps q
+    simp only [hBump, hReact, hTake, List.mem_cons, List.not_mem_nil, or_false] at hps
+    rcases hps with rfl | rfl <;> intro hc <;> cases hc
+
+theorem demo_reach : Reach demoW := by
+  have h := demoCheck_true
+  simp only [demoCheck, Bool.and_eq_true] at h
+  exact ReachStore.reach_runOps demoOps_valid h.1.1.1.1.1.1.1.1
+
+/-- the theorems apply to the demo world: every delivery started in it refines the abstract map update (no hypothesis
+    left but the resource bound of the end world) -/
+example (hs : Small demoW) {it : QItem} {w' : World} (hs' : Small w')
+    (h : (deliverOne it).run.run demoW = (.ok (), w')) : Refines demoW w' it :=
+  deliverOne_refines_reach' demo_reach hs hs' h
+
+/-- the bound of (A) is tight: across the operation `send G0` (one delivery whose handler bumps) `(#0, K0)` keeps its
+    serial `1` and changes its payload `7 ↦ 8`; `(#0, K1)` (not in the handler's query) is literally unchanged -/
+theorem demo_bump_tight :
+    (ReachStore.runOps (demoOps.take 6)).read ⟨0, 1⟩ 0 = some ⟨7, 1⟩ ∧
+    (ReachStore.runOps (demoOps.take 7 ++ demoOps.drop 7)).read ⟨0, 1⟩ 0 = some ⟨8, 1⟩ ∧
+    (ReachStore.runOps (demoOps.take 6)).read ⟨0, 1⟩ 1 = demoW.read ⟨0, 1⟩ 1 := by
+  have h := demoCheck_true
+  simp only [demoCheck, Bool.and_eq_true, beq_iff_eq] at h
+  obtain ⟨⟨⟨⟨⟨⟨⟨⟨-, h1⟩, h2⟩, h3⟩, h4⟩, -⟩, -⟩, -⟩, -⟩ := h
+  exact ⟨h1, h3, h2.trans h4.symm⟩
+
 end C02Flush
 end Evenio
+
+#print axioms Evenio.C02Flush.hreg_of_winv
+#print axioms Evenio.C02Flush.deliverOne_refines_strong
+#print axioms Evenio.C02Flush.deliverOne_refines_reach'
+#print axioms Evenio.C02Flush.dfsLog_refines
+#print axioms Evenio.C02Flush.flush_refines
+#print axioms Evenio.C02Flush.delivery_unaffected
+#print axioms Evenio.C02Flush.unaffected_serial
+#print axioms Evenio.C02Flush.flush_last_insert
+#print axioms Evenio.C02Flush.insert_applied
+#print axioms Evenio.C02Flush.demoCheck_true
+#print axioms Evenio.C02Flush.demo_reach
+#print axioms Evenio.C02Flush.demo_bump_tight
